@@ -10,7 +10,7 @@ from datetime import timedelta
 
 HERE = os.path.dirname(os.path.abspath(__file__))
 sys.path.insert(0, HERE)
-sys.path.insert(0, "/repo")
+sys.path.insert(0, os.environ.get("HEXITAL_REPO", "/repo"))  # /repo unless a run snapshot is given
 
 import tlc  # noqa: E402
 from catalog import IndCfg, kind_property  # noqa: E402
